@@ -120,7 +120,10 @@ func c16(r *rand.Rand, tier string, tr *trace.Buf) {
 		sig  []byte
 		pk   []byte
 	}
-	dtrips := []trip{{"valid", dmsg, dsig[:], dpk[:]}, {"wrong-message", []byte("other"), dsig[:], dpk[:]}, {"flipped-signature", dmsg, flipped[:], dpk[:]}}
+	dmsg0x := []byte("0xfeedface")
+	dsig0x, _ := dk.Sign(dmsg0x)
+	dtrips := []trip{{"valid", dmsg, dsig[:], dpk[:]}, {"wrong-message", []byte("other"), dsig[:], dpk[:]}, {"flipped-signature", dmsg, flipped[:], dpk[:]},
+		{"valid-0x-message", dmsg0x, dsig0x[:], dpk[:]}, {"wrong-message-bare-variant", []byte("feedface"), dsig0x[:], dpk[:]}}
 	emitD := func(class string, msg []byte, sigS, pkS string) {
 		e := wEvent{Ev: "wrap", Fn: "dverify", Class: class, Args: [][]int{ints([]byte(sigS)), ints([]byte(pkS))},
 			Sizes: []int{dilithium.CryptoBytes, dilithium.CryptoPublicKeyBytes}}
@@ -196,7 +199,12 @@ func c16(r *rand.Rand, tier string, tr *trace.Buf) {
 	xsig, _ := xk.Sign([]byte(xmsg))
 	xflip := dup(xsig)
 	xflip[50] ^= 1
-	xtrips := []trip{{"valid", []byte(xmsg), xsig, xpk[:]}, {"wrong-message", []byte("other"), xsig, xpk[:]}, {"flipped-signature", []byte(xmsg), xflip, xpk[:]}}
+	// messages are text for XMSSVerify: one that itself starts with "0x" must not be touched by prefix handling
+	xmsg0x := "0xdeadbeef"
+	xsig0x, _ := xk.Sign([]byte(xmsg0x))
+	xsigBare, _ := xk.Sign([]byte("deadbeef"))
+	xtrips := []trip{{"valid", []byte(xmsg), xsig, xpk[:]}, {"wrong-message", []byte("other"), xsig, xpk[:]}, {"flipped-signature", []byte(xmsg), xflip, xpk[:]},
+		{"valid-0x-message", []byte(xmsg0x), xsig0x, xpk[:]}, {"wrong-message-0x-variant", []byte(xmsg0x), xsigBare, xpk[:]}, {"wrong-message-bare-variant", []byte("deadbeef"), xsig0x, xpk[:]}}
 	emitX := func(class string, msg string, sigS, pkS string) {
 		e := wEvent{Ev: "wrap", Fn: "xverify", Class: class, Args: [][]int{ints([]byte(sigS)), ints([]byte(pkS))},
 			Sizes: []int{0, xmss.ExtendedPKSize}}
@@ -219,7 +227,7 @@ func c16(r *rand.Rand, tier string, tr *trace.Buf) {
 		pv := variants(t.pk, r)
 		for i, a := range sv {
 			for j, b := range pv {
-				if (i < 4 && j < 4) || (t.name == "valid" && (i == 0 || j == 1)) {
+				if (i < 4 && j < 4) || (strings.HasPrefix(t.name, "valid") && (i == 0 || j == 1)) {
 					emitX(t.name+"/"+a.class+"/"+b.class, string(t.msg), a.s, b.s)
 				}
 			}
